@@ -225,6 +225,11 @@ def gen_symbol(rng, cli, seq=False, maxlen=40):
             kw['micro'] = rng.choice((True, False))
         if rng.random() < 0.25 and kw.get('micro') is not True:
             kw['version'] = rng.randint(1, 12)
+        elif rng.random() < 0.15 and kw.get('micro') is not False and mode != 'hanzi':
+            # Micro versions by name, in both letter cases (the CLI turns micro into None for them)
+            kw['version'] = rng.choice(('M1', 'M2', 'M3', 'M4', 'm2', 'm3', 'm4'))
+            if rng.random() < 0.6:
+                kw.pop('micro', None)   # no --micro flag: the version name alone must be enough
     if kw.get('mode') == 'hanzi' and kw.get('micro') is True:
         kw['micro'] = False
     if rng.random() < 0.4:
